@@ -174,6 +174,7 @@ type solverSpec struct {
 }
 
 var solverSeed = 0
+var noRetry = false
 
 var solvers = []solverSpec{
 	{"z3", func(f string, t int) []string {
@@ -309,10 +310,15 @@ func dischargeAll(vcs []*VC, dir string, timeoutS int, workers int) {
 	wg.Wait()
 	// Second chance, one at a time and with other seeds, for obligations that were not discharged:
 	// a proof found under any seed is a proof; this only removes alarms caused by solver scheduling.
+	retried := 0
 	for _, vc := range vcs {
 		if vc.Cover || vc.Known != "" || vc.Result == "unsat" || vc.Result == "vacuous" {
 			continue
 		}
+		if noRetry || retried >= 4 {
+			break
+		}
+		retried++
 		first := vc.Result
 		for seed := 1; seed <= 2 && vc.Result != "unsat"; seed++ {
 			solverSeed = seed
